@@ -17,7 +17,7 @@ Transcription:
   * `HashSet<u16>`           ↦ duplicate-free `List Gid` (membership only is observable; the
                                result is sorted before use)
   * `worklist: Vec<u16>`, `pop()`/`push()` ↦ list, head = top of stack
-  * `sorted_glyphs.sort()` + `enumerate()` ↦ `mergeSort` + `idxOf`
+  * `sorted_glyphs.sort()` + `enumerate()` ↦ insertion sort `sortGids` + `idxOf`
   * `glyph_map.get(&old).copied().unwrap_or(0)` ↦ `(remap? old).getD 0`
   * `subset_ratio > 0.5` on `f32` ↦ `2 * needed > num_glyphs` (exact for u16-sized operands:
     the quotient differs from 0.5 by at least 2⁻¹⁷, far above f32 rounding)
@@ -70,7 +70,13 @@ def closure (glyph : Gid → Glyph) (init : List Gid) : Option (List Gid) :=
 
 /-! ### renumber_and_build -/
 
-def sortGids (s : List Gid) : List Gid := s.mergeSort (fun a b => decide (a ≤ b))
+/-- insertion into an ascending list (structural, so that concrete instances reduce) -/
+def insertGid (a : Nat) : List Nat → List Nat
+  | [] => [a]
+  | b :: l => if a ≤ b then a :: b :: l else b :: insertGid a l
+
+/-- `sorted_glyphs.sort()` -/
+def sortGids (s : List Gid) : List Gid := s.foldr insertGid []
 
 /-- `glyph_map.get(&old)` where `glyph_map = sorted.enumerate()` -/
 def remap? (sorted : List Gid) (old : Gid) : Option Gid :=
@@ -126,7 +132,7 @@ inductive Ans where
   /-- handed to `cff_subsetter::subset_cff_font` -/
   | cff
   | stuck
-  deriving Repr
+  deriving Repr, DecidableEq
 
 /-- `TrueTypeSubsetter::subset` -/
 def subsetChars (f : Font) (fontSize numGlyphs : Nat) (isCff : Bool) (used : List Nat) : Ans :=
@@ -147,7 +153,7 @@ inductive GAns where
   | err
   | subset (map : List (Gid × Gid)) (rows : List Row)
   | stuck
-  deriving Repr
+  deriving Repr, DecidableEq
 
 /-- `subset_font_by_gids` (TrueType only) -/
 def subsetGids (f : Font) (isCff : Bool) (used : List Gid) : GAns :=
